@@ -262,6 +262,9 @@ def run(tier, rep, only=None):
     if tier == "thorough":
         sp.append((MOD, "mk_step", (2, 2)))
         sp.append((MOD, "mk_step", (1, 3)))
+    from props import c09h
+
+    sp.extend(c09h.specs(tier, "c11"))
     if only:
         sp = [s for s in sp if only in explore.build(s).name]
     rep.bounds = {"registry": "prior state: <=2 (quick) / <=3 clients with <=2/3 codes each, every code a symbolic int 400..599", "gate": "core depth 1..4 x client depth 1..3 x inside/outside"}
@@ -275,6 +278,14 @@ def run(tier, rep, only=None):
 
 def replay(path):
     v = json.load(open(path))["violation"]
+    if v["obligation"].startswith("shared_core_history"):
+        from props import c09h
+
+        ob, inp = c09h.replay_ob(v)
+        r = ob.run_real(inp)
+        why = ob.verdict(inp, r, ob.which)
+        print("replay %s inputs=%r -> %s" % (v["obligation"], inp, "holds" if why is None else why))
+        return 0 if why is None else 1
     if v["obligation"].startswith("shared_core_gate"):
         ob = Gate()
     else:
